@@ -53,3 +53,22 @@ package dns
 //@ func IsNotFound
 //@   prop C05 C13
 //@   ensures result == notFoundErr(err)
+
+// ---- C05: whose AD flag is believed ----
+// exchange asks the configured servers in turn; the authenticated-data flag of the answer it returns is kept only
+// when the server that gave this answer is a loopback address (the test is applied to the server asked last, and a
+// successful result whose flag is set passed that test). The transport and the address test are assumed.
+//@ ghost var gLastAsked string
+//@ ghost var gLoopOK bool
+//@ extern func (ExtResolver).exchange#JoinHostPort$call(host string, port string) (r string)
+//@   modifies gLastAsked
+//@   ensures gLastAsked == host
+//@ extern func (ExtResolver).exchange#isLoopback$call(addr string) (r bool)
+//@   modifies gLoopOK
+//@   ensures gLoopOK == r
+//@ func (ExtResolver).exchange
+//@   prop C05 C13
+//@   modifies *
+//@   assert-call isLoopback : $addr == gLastAsked
+//@   ensures result1 == nil && result0 != nil && result0.AuthenticatedData ==> gLoopOK
+//@   loop 0 invariant resp == nil || lastErr != nil
